@@ -33,6 +33,80 @@ func (r *storeRig) reopen(gap time.Duration) {
 	r.store = st
 }
 
+// applyUnderFault performs one mutating operation while a disk fault is armed.  If the
+// operation reports success it took effect, fault or not.  If it reports failure after the
+// fault fired, the mailbox must read back as it was before - or, for mark-seen, remove and
+// purge, as it would be after (the index may already have been replaced when a later step
+// failed); anything else, or a mailbox that cannot be read any more, is a violation.
+func (r *storeRig) applyUnderFault(i int, o SOp, f fsFault) {
+	c, tag := r.c, r.tag
+	firedBefore := fsFired(c.Sim)
+	before := r.model.Clone()
+	after := r.model.Clone()
+	disarm := f.arm(c.Sim)
+	var err error
+	switch o.Kind {
+	case "add":
+		m := *o.Msg
+		var id string
+		if id, err = r.store.AddMessage(delivery(&m)); err == nil {
+			m.ID = id
+			r.ids[o.Mailbox] = append(r.ids[o.Mailbox], id)
+			r.model.Add(&m)
+		}
+	case "seen":
+		id, live := r.idFor(o)
+		if err = r.store.MarkSeen(o.Mailbox, id); live {
+			after.MarkSeen(o.Mailbox, id)
+			if err == nil {
+				r.model.MarkSeen(o.Mailbox, id)
+			}
+		}
+	case "remove":
+		id, live := r.idFor(o)
+		if err = r.store.RemoveMessage(o.Mailbox, id); live {
+			after.Remove(o.Mailbox, id)
+			if err == nil {
+				r.model.Remove(o.Mailbox, id)
+			}
+		}
+	case "purge":
+		after.Purge(o.Mailbox)
+		if err = r.store.PurgeMessages(o.Mailbox); err == nil {
+			r.model.Purge(o.Mailbox)
+		}
+	}
+	disarm()
+	fired := fsFired(c.Sim) > firedBefore
+	c.Logf("%s op %d %s under %s -> %s (fault fired: %v)", tag, i, o, f, errStr(err), fired)
+	if err != nil && !isNotExist(err) {
+		if !fired {
+			c.Failf(tag+"/"+o.Kind+"->error", "op %d %s: %v", i, o, err)
+			return
+		}
+		c.Stat("probe.operation_failed_after_disk_fault", 1)
+		got, lerr := r.store.GetMessages(o.Mailbox)
+		if lerr != nil {
+			c.Failf(tag+"/disk-fault:mailbox-unreadable-after-failed-"+o.Kind, "op %d %s failed with %v after the injected disk fault; listing the mailbox now fails too: %v", i, o, err, lerr)
+			return
+		}
+		dB := cmpList(got, before.List(o.Mailbox), true)
+		if dB == "" {
+			return
+		}
+		if o.Kind != "add" {
+			if dA := cmpList(got, after.List(o.Mailbox), true); dA == "" {
+				r.model = after
+				return
+			}
+		}
+		c.Failf(tag+"/disk-fault:neither-before-nor-after("+o.Kind+")", "op %d %s failed with %v after the injected disk fault; the mailbox is neither as before (%s) nor as after", i, o, err, dB)
+		return
+	}
+	// reported success (or 'does not exist'): everything must read back as the model says
+	r.checkAll([]string{o.Mailbox})
+}
+
 // retention runs one real retention scan and applies the same rule to the model.
 func (r *storeRig) retention(i int, period time.Duration) {
 	rs := storage.NewRetentionScanner(config.Storage{RetentionPeriod: period, RetentionSleep: 0}, r.store)
@@ -65,6 +139,16 @@ func init() {
 			if w.Choose(30) == 0 {
 				h.SkipIDs = 9980 + w.Choose(19) // the id counter is about to start over
 			}
+			var mut []int
+			for i, o := range h.Ops {
+				switch o.Kind {
+				case "add", "seen", "remove", "purge":
+					mut = append(mut, i)
+				}
+			}
+			if h.Fault = genFSFault(w, len(mut)); h.Fault.On {
+				h.Fault.Target = mut[h.Fault.Target]
+			}
 			for i := range h.Ops {
 				switch h.Ops[i].Kind {
 				case "reopen":
@@ -89,6 +173,13 @@ func init() {
 			}
 			reopens := 0
 			for i, o := range h.Ops {
+				if h.Fault.On && h.Fault.Target == i {
+					r.applyUnderFault(i, o, h.Fault)
+					if c.Failed() {
+						return
+					}
+					continue
+				}
 				switch o.Kind {
 				case "reopen":
 					switch {
